@@ -221,7 +221,14 @@ func c12Sim(t *testing.T, run *Run, sc c12Scenario) {
 				run.Count("command_repeated_after_a_failed_save", 1)
 			}
 		}
-		_ = repeated
+		if blocked && !repeated && rec.Err == "" && rec.Panic == "" {
+			// any other command: the obstacle is gone and the next command that saves - one that changes
+			// nothing (it fails for an unknown service and still saves) - has returned: the file is current
+			if r2 := w.Cmd("rollout-stop", "no-such-service", func() error { return w.Router.StopRollout("no-such-service") }); r2.Panic == "" {
+				blocked = false
+				run.Count("neutral_command_after_a_failed_save", 1)
+			}
+		}
 		if i == 0 && sc.Idx%2 == 0 && rec.Err == "" && len(c.Targets) >= 2 {
 			// from now on one target of the first service fails its health checks (it keeps serving
 			// requests): which targets a service has is configuration, how they are doing is not
